@@ -1,7 +1,18 @@
 /-
   C11 — memory safety (PARTIAL). What a theorem carries here: (a) shape safety of the model — every W-level writer maps a
   well-formed view (right number of rows, `width` words each) to a well-formed view, i.e. no modelled write creates or
-  needs a word outside the operand (`…_WF` theorems, listed); (b) the allocator bookkeeping never releases a block twice
+  needs a word outside the operand (`…_WF` theorems, listed); (a') the ACCESS-TRACE model M4ri/Safety.lean: for each
+  word-level kernel (bit/bits accessors, row swap, column swap, row add with its SSE2 body, combine_even(_in_place),
+  _mzd_combine and the _mzd_combine_2..8 templates incl. the peel step and Duff devices, row clear, copy, copy_row, _mzd_add,
+  submatrix, find_pivot, make_table, process_rows) the list of (operand, row, word, R/W, 8|16 bytes) accesses and the list
+  of shift counts as closed-form functions of the arguments; PROVED under the documented preconditions (shapes >= 1x1):
+  every access is inside its operand (never the padding word, never word `width`), every 16-byte access is 16-byte
+  aligned for BOTH row phases (windows starting at an odd word), every shift count is in 0..63, and the second word of a
+  <=64-bit span is touched iff the span crosses into it. The trace model is tied to the real code on every check by
+  running the kernels under `valgrind --tool=lackey` and comparing the traces as multisets (vlib/tracecheck.py).
+  `_partial`: copy / copy_row / submatrix need `0 < ncols` resp. a non-empty column range — the `_full_false` theorems are
+  kernel-checked counterexamples, and the real code does misbehave there (0-column source: word −1 is accessed); those
+  shapes are outside the >= 1x1 domain of this property and are recorded in DESIGN.md as out-of-domain observations. (b) the allocator bookkeeping never releases a block twice
   and retains nothing after finalisation (C14). What NO theorem here covers and only the implementation-side runs see:
   real out-of-bounds / misaligned-vector / use-after-free accesses and undefined arithmetic in the C text (every
   correspondence suite is also executed under AddressSanitizer + UndefinedBehaviorSanitizer with allocator balance
@@ -12,6 +23,7 @@ import M4riProofs.W.RowCol
 import M4riProofs.W.Perm
 import M4riProofs.W.DataMove
 import M4riProofs.Alloc
+import M4riProofs.Safety
 namespace M4ri.Props.C11
 
 #check @M4ri.Mzd.rowSwapFrom_WF
@@ -34,5 +46,71 @@ namespace M4ri.Props.C11
 #check @M4ri.Alloc.no_double_free
 #check @M4ri.Alloc.balanced_run
 #check @M4ri.Alloc.free_safe
+
+#check @M4ri.Safety.Access.inBounds_flat
+#check @M4ri.Safety.duff_pos
+#check @M4ri.Safety.duff_zero
+#check @M4ri.Safety.accReadBit_inBounds
+#check @M4ri.Safety.shReadBit_ok
+#check @M4ri.Safety.accWriteBit_inBounds
+#check @M4ri.Safety.shWriteBit_ok
+#check @M4ri.Safety.accXorBits_inBounds
+#check @M4ri.Safety.accAndBits_inBounds
+#check @M4ri.Safety.accClearBits_inBounds
+#check @M4ri.Safety.accReadBits_inBounds
+#check @M4ri.Safety.accXorBits_next_iff
+#check @M4ri.Safety.accReadBits_next_iff
+#check @M4ri.Safety.accXorBits_span
+#check @M4ri.Safety.accReadBits_span
+#check @M4ri.Safety.shXorBits_ok
+#check @M4ri.Safety.shAndBits_ok
+#check @M4ri.Safety.shClearBits_ok
+#check @M4ri.Safety.shReadBits_ok
+#check @M4ri.Safety.accRowAddOffsetScalar_inBounds
+#check @M4ri.Safety.accRowAddOffset_inBounds
+#check @M4ri.Safety.accRowAddOffset_aligned
+#check @M4ri.Safety.shRowAddOffset_ok
+#check @M4ri.Safety.accRowAddOffset_last
+#check @M4ri.Safety.accCombineEvenInPlace_inBounds
+#check @M4ri.Safety.accCombineEvenInPlace_aligned
+#check @M4ri.Safety.accCombineEven_inBounds
+#check @M4ri.Safety.accCombineEven_aligned
+#check @M4ri.Safety.accCombine_inBounds
+#check @M4ri.Safety.accCombine_aligned
+#check @M4ri.Safety.accCombine_phase_witness
+#check @M4ri.Safety.accCombineN_inBounds
+#check @M4ri.Safety.accCombineN_aligned
+#check @M4ri.Safety.accCombineN_phase_witness
+#check @M4ri.Safety.accRowSwap_inBounds
+#check @M4ri.Safety.accColSwapInRows_inBounds
+#check @M4ri.Safety.shColSwapInRows_ok
+#check @M4ri.Safety.accRowClearOffset_inBounds
+#check @M4ri.Safety.shRowClearOffset_ok
+#check @M4ri.Safety.accCopy_inBounds_partial
+#check @M4ri.Safety.accCopy_full_false
+#check @M4ri.Safety.accCopyRow_inBounds_partial
+#check @M4ri.Safety.accCopyRow_full_false
+#check @M4ri.Safety.shCopyRow_ok
+#check @M4ri.Safety.accAdd_inBounds
+#check @M4ri.Safety.accAdd_aligned
+#check @M4ri.Safety.accSubmatrix_inBounds_partial
+#check @M4ri.Safety.accSubmatrix_full_false
+#check @M4ri.Safety.shSubmatrix_ok_partial
+#check @M4ri.Safety.accFindPivot_inBounds
+#check @M4ri.Safety.shFindPivot_ok
+#check @M4ri.Safety.accMakeTable_inBounds
+#check @M4ri.Safety.shMakeTable_ok
+#check @M4ri.Safety.accProcessRows_inBounds
+#check @M4ri.Safety.shProcessRows_ok
+#check @M4ri.Safety.accRowSwap_aligned
+#check @M4ri.Safety.accColSwapInRows_aligned
+#check @M4ri.Safety.accRowClearOffset_aligned
+#check @M4ri.Safety.accCopy_aligned
+#check @M4ri.Safety.accCopyRow_aligned
+#check @M4ri.Safety.accSubmatrix_aligned
+#check @M4ri.Safety.accFindPivot_aligned
+#check @M4ri.Safety.accMakeTable_aligned
+#check @M4ri.Safety.accProcessRows_aligned
+#check @M4ri.Safety.phase_row_indep
 
 end M4ri.Props.C11
